@@ -767,40 +767,54 @@ func (x *Exec) applyContract(st *State, fc *FuncContract, origin *ssa.Function, 
 
 // normalizeBuffers makes an unconditional assumption  buf.u == <structured term>  the buffer's content.
 func (x *Exec) normalizeBuffers(st *State) {
+	pieces := func(t *Term) int {
+		n := 0
+		fv := map[string]*Term{}
+		FreeVars(t, fv)
+		for k := range fv {
+			if strings.HasPrefix(k, "piece!") {
+				n++
+			}
+		}
+		return n
+	}
 	for o, c := range st.heap {
-		if o.Kind != "buffer" || c.Seq == nil || c.Seq.Op != "var" {
+		if o.Kind != "buffer" || c.Seq == nil {
 			continue
 		}
-		var best *Term
+		v := c.Seq
 		bestPieces := 1 << 30
+		if v.Op != "var" {
+			// an earlier description that still contains an unknown piece may be improved once a later fact
+			// (e.g. the callee's behaviour becoming known) gives the full structure
+			if c.SeqVar == nil || c.SeqOf != c.Seq || pieces(c.Seq) == 0 {
+				continue
+			}
+			v = c.SeqVar
+			bestPieces = pieces(c.Seq)
+		}
+		var best *Term
 		for _, p := range st.pc {
 			if p.Op != "=" || p.Args[0].Sort != SSeq {
 				continue
 			}
 			var cand *Term
-			if Same(p.Args[0], c.Seq) && !mentions(p.Args[1], c.Seq.Name) {
+			if Same(p.Args[0], v) && !mentions(p.Args[1], v.Name) {
 				cand = p.Args[1]
-			} else if Same(p.Args[1], c.Seq) && !mentions(p.Args[0], c.Seq.Name) {
+			} else if Same(p.Args[1], v) && !mentions(p.Args[0], v.Name) {
 				cand = p.Args[0]
 			}
 			if cand == nil {
 				continue
 			}
 			// prefer the fully structured description over one that contains an unknown piece
-			n := 0
-			fv := map[string]*Term{}
-			FreeVars(cand, fv)
-			for k := range fv {
-				if strings.HasPrefix(k, "piece!") {
-					n++
-				}
-			}
-			if n < bestPieces {
+			if n := pieces(cand); n < bestPieces {
 				best, bestPieces = cand, n
 			}
 		}
 		if best != nil {
-			st.mut(o).Seq = best
+			m := st.mut(o)
+			m.Seq, m.SeqVar, m.SeqOf = best, v, best
 		}
 	}
 }
